@@ -22,7 +22,14 @@ def run(ctx):
                       "later substitution passes)")
     ctx.rule("R13-3", "line_to_cmds (; && || #) is applied to the line as typed: nothing derived from an expansion "
                       "flows into its argument")
+    ctx.rule("R13-4", "an expansion result is written into the token it was computed for: positions recorded while a pass "
+                      "scans the token vector are not used after the vector's length changed (E-EDITLIST), so text "
+                      "produced under one quote tag cannot land in a neighbouring word with a different tag")
     for crate in ctx.crates:
+        from .. import editlist
+        de_, ps_ = passes_in_order(crate)
+        n_ = editlist.rule(ctx, crate, "R13-4", ps_)
+        ctx.floor("R13-4", crate, "passes with a token vector", n_, 7)
         res = etag.run_sites(ctx, "R13-1", crate, cls_filter=lambda i: i.cls == "OP")
         ctx.floor("R13-1", crate, "operator recognisers", len(res), 9)
         retag_rule(ctx, crate)
